@@ -100,6 +100,8 @@ pub struct SimConsole {
     eof_prompt_reads: u32,
     /// spin guard: records written since the last instruction or the last line of input
     recs_since_progress: u64,
+    /// spin guard: service-level reads at end of input since the last instruction
+    eof_service_reads: u32,
     /// what the last fill_buf offered (consume takes a prefix of it)
     last_fill: Vec<u8>,
     /// bytes consumed through fill_buf/consume that do not yet make up a whole line, per caller
@@ -134,6 +136,7 @@ impl SimConsole {
             last_regs: [0; 14],
             eof_prompt_reads: 0,
             recs_since_progress: 0,
+            eof_service_reads: 0,
             last_fill: Vec::new(),
             pending: [Vec::new(), Vec::new()],
         }
@@ -220,6 +223,14 @@ impl Console for SimConsole {
             self.recs_since_progress = 0;
         }
         self.push(Event::Line { who, res });
+        if who == Who::Service && at_eof {
+            // a service that asks again and again at end of input, with no instruction in between,
+            // will never get a different answer
+            self.eof_service_reads += 1;
+            if self.eof_service_reads >= 64 {
+                std::panic::resume_unwind(Box::new(SimSpin));
+            }
+        }
         if who == Who::Prompt && at_eof {
             self.eof_prompt_reads += 1;
             if self.eof_prompt_reads >= 64 {
@@ -256,6 +267,12 @@ impl Console for SimConsole {
                     self.push(Event::Line { who, res: LineRes::Ok(t) });
                 } else {
                     self.push(Event::Line { who, res: LineRes::Eof });
+                    if who == Who::Service {
+                        self.eof_service_reads += 1;
+                        if self.eof_service_reads >= 64 {
+                            std::panic::resume_unwind(Box::new(SimSpin));
+                        }
+                    }
                     if who == Who::Prompt {
                         self.eof_prompt_reads += 1;
                         if self.eof_prompt_reads >= 64 {
@@ -311,6 +328,7 @@ impl Console for SimConsole {
             return true;
         }
         self.recs_since_progress = 0;
+        self.eof_service_reads = 0;
         let mem = mem_delta(&mut self.shadow, &vm.mem[..]);
         self.last_regs = regs_of(vm);
         self.push(Event::Probe { idx, code: code.to_owned(), regs: regs_of(vm), mem });
